@@ -2,7 +2,10 @@
 use crate::util::*;
 use crate::p3::bounding_volume::{Aabb, BoundingVolume};
 use crate::p3::utils::Interval;
-use crate::p3::shape::{Ball, Capsule, Cuboid, Triangle};
+use crate::p3::shape::{Ball, Capsule, Cone, Cuboid, Cylinder, Segment, Triangle};
+use crate::p3::bounding_volume::{BoundingSphere, SimdAabb};
+use crate::p3::math::SimdReal;
+use crate::p3::simba::simd::SimdValue;
 
 fn aabb(a: &mut Args) -> Aabb { Aabb::new(d3::p(a), d3::p(a)) }
 fn faabb(b: &Aabb) -> String { format!("{} {}", d3::fp(&b.mins), d3::fp(&b.maxs)) }
@@ -39,9 +42,38 @@ pub fn exec(func: &str, a: &mut Args) -> String {
         "cuboid_aabb2" => { let he = d2::v(a); let m = d2::iso(a); faabb2(&crate::p2::shape::Cuboid::new(he).aabb(&m)) }
         "capsule_aabb" => { let p = d3::p(a); let q = d3::p(a); let r = a.f(); let m = d3::iso(a); faabb(&Capsule::new(p, q, r).aabb(&m)) }
         "triangle_aabb" => { let p = d3::p(a); let q = d3::p(a); let r = d3::p(a); let m = d3::iso(a); faabb(&Triangle::new(p, q, r).aabb(&m)) }
+        "ball_bsphere" => { let r = a.f(); let m = d3::iso(a); fsph(&Ball::new(r).bounding_sphere(&m)) }
+        "cuboid_bsphere" => { let he = d3::v(a); let m = d3::iso(a); fsph(&Cuboid::new(he).bounding_sphere(&m)) }
+        "capsule_bsphere" => { let p = d3::p(a); let q = d3::p(a); let r = a.f(); let m = d3::iso(a); fsph(&Capsule::new(p, q, r).bounding_sphere(&m)) }
+        "cone_bsphere" => { let hh = a.f(); let r = a.f(); let m = d3::iso(a); fsph(&Cone::new(hh, r).bounding_sphere(&m)) }
+        "cyl_bsphere" => { let hh = a.f(); let r = a.f(); let m = d3::iso(a); fsph(&Cylinder::new(hh, r).bounding_sphere(&m)) }
+        "triangle_bsphere" => { let p = d3::p(a); let q = d3::p(a); let r = d3::p(a); let m = d3::iso(a); fsph(&Triangle::new(p, q, r).bounding_sphere(&m)) }
+        "segment_bsphere" => { let p = d3::p(a); let q = d3::p(a); let m = d3::iso(a); fsph(&Segment::new(p, q).bounding_sphere(&m)) }
+        "bsphere_merged" => { let x = sph(a); let y = sph(a); fsph(&x.merged(&y)) }
+        "bsphere_intersects" => { let x = sph(a); let y = sph(a); b(x.intersects(&y)).into() }
+        "bsphere_contains" => { let x = sph(a); let y = sph(a); b(x.contains(&y)).into() }
+        "simd_contains" => { let x = simd(a); let y = simd(a); fmask(x.contains(&y)) }
+        "simd_intersects" => { let x = simd(a); let y = simd(a); fmask(x.intersects(&y)) }
+        "simd_contains_point" => { let x = simd(a); let p = d3::p(a); fmask(x.contains_local_point(&crate::p3::na::Point3::splat(p))) }
+        "simd_scaled" => { let x = simd(a); let s = d3::v(a); fsimd(&x.scaled(&crate::p3::na::Vector3::splat(s))) }
+        "simd_loosen" => { let mut x = simd(a); let m = a.f(); x.loosen(SimdReal::splat(m)); fsimd(&x) }
+        "simd_dilate" => { let mut x = simd(a); let f = a.f(); x.dilate_by_factor(SimdReal::splat(f)); fsimd(&x) }
+        "simd_merged" => { let x = simd(a); faabb(&x.to_merged_aabb()) }
+        "simd_dist_point" => { let x = simd(a); let p = d3::p(a); let d = x.distance_to_local_point(&crate::p3::na::Point3::splat(p));
+            (0..4).map(|i| ff(d.extract(i))).collect::<Vec<_>>().join(" ") }
+        "interval_div" => { let x = interval(a); let y = interval(a); let (p, q) = x / y;
+            match q { None => format!("{} {} none", fx(p.0), fx(p.1)), Some(q) => format!("{} {} {} {}", fx(p.0), fx(p.1), fx(q.0), fx(q.1)) } }
         _ => "nofn".into(),
     }
 }
+
+fn fx(x: f64) -> String { if x.is_infinite() { hx(x) } else { ff(x) } }
+fn sph(a: &mut Args) -> BoundingSphere { BoundingSphere::new(d3::p(a), a.f()) }
+fn fsph(s: &BoundingSphere) -> String { format!("{} {}", d3::fp(s.center()), ff(s.radius())) }
+fn hsph(s: &BoundingSphere) -> String { format!("{} {}", d3::hp(s.center()), hx(s.radius())) }
+fn simd(a: &mut Args) -> SimdAabb { SimdAabb::from([aabb(a), aabb(a), aabb(a), aabb(a)]) }
+fn fsimd(x: &SimdAabb) -> String { (0..4).map(|i| faabb(&x.extract(i))).collect::<Vec<_>>().join(" ") }
+fn fmask(m: crate::p3::math::SimdBool) -> String { (0..4).map(|i| b(m.extract(i))).collect::<Vec<_>>().join(" ") }
 
 fn gen_interval(r: &mut Rng, lat: bool) -> (f64, f64) {
     if lat {
@@ -92,6 +124,46 @@ pub fn gen(r: &mut Rng, thorough: bool) -> Vec<(String, String)> {
         v.push(("cuboid_aabb".into(), format!("{} {}", d3::hv(&d3::gen_he(r, lat)), d3::hiso(&m))));
         v.push(("capsule_aabb".into(), format!("{} {} {} {}", d3::hp(&d3::gen_p(r, lat, 10.0)), d3::hp(&d3::gen_p(r, lat, 10.0)), hx(r.pos_extent(lat)), d3::hiso(&m))));
         v.push(("triangle_aabb".into(), format!("{} {} {} {}", d3::hp(&d3::gen_p(r, lat, 10.0)), d3::hp(&d3::gen_p(r, lat, 10.0)), d3::hp(&d3::gen_p(r, lat, 10.0)), d3::hiso(&m))));
+        // part 2: bounding spheres, SIMD lanes, interval division
+        v.push(("ball_bsphere".into(), format!("{} {}", hx(r.pos_extent(lat)), d3::hiso(&m))));
+        v.push(("cuboid_bsphere".into(), format!("{} {}", d3::hv(&d3::gen_he(r, lat)), d3::hiso(&m))));
+        v.push(("capsule_bsphere".into(), format!("{} {} {} {}", d3::hp(&d3::gen_p(r, lat, 10.0)), d3::hp(&d3::gen_p(r, lat, 10.0)), hx(r.pos_extent(lat)), d3::hiso(&m))));
+        v.push(("cone_bsphere".into(), format!("{} {} {}", hx(r.pos_extent(lat)), hx(r.pos_extent(lat)), d3::hiso(&m))));
+        v.push(("cyl_bsphere".into(), format!("{} {} {}", hx(r.pos_extent(lat)), hx(r.pos_extent(lat)), d3::hiso(&m))));
+        v.push(("triangle_bsphere".into(), format!("{} {} {} {}", d3::hp(&d3::gen_p(r, lat, 10.0)), d3::hp(&d3::gen_p(r, lat, 10.0)), d3::hp(&d3::gen_p(r, lat, 10.0)), d3::hiso(&m))));
+        v.push(("segment_bsphere".into(), format!("{} {} {}", d3::hp(&d3::gen_p(r, lat, 10.0)), d3::hp(&d3::gen_p(r, lat, 10.0)), d3::hiso(&m))));
+        let s1 = BoundingSphere::new(d3::gen_p(r, lat, 10.0), r.pos_extent(lat));
+        let s2 = if r.below(6) == 0 { BoundingSphere::new(*s1.center(), r.pos_extent(lat)) } else { BoundingSphere::new(d3::gen_p(r, lat, 10.0), r.pos_extent(lat)) };
+        for f in ["bsphere_merged", "bsphere_intersects", "bsphere_contains"] { v.push((f.to_string(), format!("{} {}", hsph(&s1), hsph(&s2)))); }
+        // SIMD lanes: each lane pairs a box with a related box (inside / protruding through one face / disjoint / invalid sentinel)
+        let mut xs = Vec::new(); let mut ys = Vec::new();
+        for _ in 0..4 {
+            let bx = gen_aabb(r, lat);
+            let he = bx.half_extents(); let c = bx.center();
+            let by = match r.below(6) {
+                0 => Aabb::new_invalid(),
+                1 => gen_aabb(r, lat),
+                _ => { // shrink, then push one face out (or not)
+                    let mut mins = c - he * 0.5; let mut maxs = c + he * 0.5;
+                    let ax = r.below(3) as usize;
+                    match r.below(4) { 0 => maxs[ax] = c[ax] + he[ax] * 1.5, 1 => mins[ax] = c[ax] - he[ax] * 1.5, 2 => maxs[ax] = c[ax] + he[ax], _ => {} }
+                    Aabb::new(mins, maxs) }
+            };
+            if r.below(12) == 0 { xs.push(Aabb::new_invalid()); } else { xs.push(bx); }
+            ys.push(by);
+        }
+        let sx = xs.iter().map(haabb).collect::<Vec<_>>().join(" ");
+        let sy = ys.iter().map(haabb).collect::<Vec<_>>().join(" ");
+        v.push(("simd_contains".into(), format!("{} {}", sx, sy)));
+        v.push(("simd_intersects".into(), format!("{} {}", sx, sy)));
+        v.push(("simd_contains_point".into(), format!("{} {}", sx, d3::hp(&p))));
+        v.push(("simd_scaled".into(), format!("{} {}", sy.replace(&haabb(&Aabb::new_invalid()), &haabb(&x)), d3::hv(&s))));
+        let mg = if lat { r.range(0, 8) as f64 * 0.25 } else { r.logu(1e-3, 10.0) };
+        v.push(("simd_loosen".into(), format!("{} {}", sy.replace(&haabb(&Aabb::new_invalid()), &haabb(&x)), hx(mg))));
+        v.push(("simd_dilate".into(), format!("{} {}", sx, hx(*r.pick(&[0.0, 0.01, 0.25, 1.0])))));
+        v.push(("simd_merged".into(), sx.clone()));
+        v.push(("simd_dist_point".into(), format!("{} {}", sy.replace(&haabb(&Aabb::new_invalid()), &haabb(&x)), d3::hp(&p))));
+        if !(b1 == 0.0 && b2 == 0.0) { v.push(("interval_div".into(), ab.clone())); }
         let m2 = d2::gen_iso(r, lat, 100.0);
         let c2 = d2::gen_p(r, lat, 50.0); let he2 = d2::gen_he(r, lat);
         v.push(("aabb2_transform".into(), format!("{} {} {}", d2::hp(&(c2 - he2)), d2::hp(&(c2 + he2)), d2::hiso(&m2))));
